@@ -160,6 +160,8 @@ def coq_ostr(s):
 
 
 def coq_uattrs(l):
+    if not isinstance(l, list):
+        raise ValueError("unmodelled uniqueattrs value %r" % (l,))
     out = []
     for u in l:
         if isinstance(u, str):
@@ -177,6 +179,8 @@ def coq_opts(d):
         if k == "uniqueattrs":
             items.append("(%s, OUniq %s)" % (coq_str(k), coq_uattrs(v)))
         elif k == "ignored_attrs":
+            if not isinstance(v, list):
+                raise ValueError("unmodelled ignored_attrs value %r" % (v,))
             items.append("(%s, OIgn %s)" % (coq_str(k), coq_list([coq_str(x) for x in v])))
         else:
             items.append("(%s, OVal %s)" % (coq_str(k), coq_av(v)))
@@ -366,6 +370,40 @@ def oracle_entrypoints(f1, f2, opts, spec):
                     ("parsed roots", r_roots)):
         if r != ref:
             return "diff from %s differs from diff_files on names: %r vs %r" % (name, str(r)[:150], str(ref)[:150])
+    return None
+
+
+ENCODINGS = ["utf-8", "utf-16", "utf-16-be", "utf-16-le", "utf-32-be", "iso-8859-1"]
+
+
+def oracle_encodings(l, r):
+    """the same two documents as str and as bytes in several encodings (with an XML declaration and white space
+    after the root element, as editors write it) give the same result"""
+    from xmldiff import main
+    from lxml import etree
+    try:
+        ref = main.diff_texts(l, r)
+        for variant, (a, b) in (("str with a trailing newline", (l + "\n", r + "\n")),
+                                ("str with a leading newline", ("\n" + l, "\n" + r))):
+            got = main.diff_texts(a, b)
+            if got != ref:
+                return "diff_texts on %s gives %r, on the plain str %r" % (variant, str(got)[:150], str(ref)[:150])
+    except Exception as ex:  # noqa
+        return "diff_texts(str) raised %r" % ex
+    for enc in ENCODINGS:
+        try:
+            docs = []
+            for t in (l, r):
+                body = "<?xml version='1.0' encoding='%s'?>\n%s\n" % (enc.upper(), t)
+                docs.append(body.encode(enc, "xmlcharrefreplace"))
+            # what lxml itself makes of these bytes is the reference for "same content"
+            if [gen.canon(etree.fromstring(d)) for d in docs] != [gen.canon(etree.fromstring(t)) for t in (l, r)]:
+                continue
+            got = main.diff_texts(docs[0], docs[1])
+        except Exception as ex:  # noqa
+            return "diff_texts(bytes in %s, with XML declaration and trailing newline) raised %r" % (enc, ex)
+        if got != ref:
+            return "diff_texts(bytes in %s) gives %r, diff_texts(str) gives %r" % (enc, str(got)[:150], str(ref)[:150])
     return None
 
 
@@ -566,16 +604,34 @@ def main(run):
         ualpha = ["a", ",", "@", "{", "i"]
         us = [None] + [''.join(t) for n in range(0, 5 if quick else 6) for t in itertools.product(ualpha, repeat=n)] + [x for x in UNIQ if x]
         for s in us:
-            add("uniqueattrs", "CUniq %s %s" % (coq_ostr(s), coq_uattrs(M._parse_uniqueattrs(s))), ("_parse_uniqueattrs", s))
-            add("ignored_attrs", "CIgn %s %s" % (coq_ostr(s), coq_list([coq_str(x) for x in M._parse_ignored_attrs(s)])),
-                ("_parse_ignored_attrs", s))
+            for kind, fn, enc, ctor in (("uniqueattrs", M._parse_uniqueattrs, coq_uattrs, "CUniq"),
+                                        ("ignored_attrs", M._parse_ignored_attrs, lambda l: coq_list([coq_str(x) for x in l]), "CIgn")):
+                try:
+                    r = fn(s)
+                    if not isinstance(r, list) or (kind == "ignored_attrs" and not all(isinstance(x, str) for x in r)):
+                        raise ValueError("returned %r, not a list" % (r,))
+                    add(kind, "%s %s %s" % (ctor, coq_ostr(s), enc(r)), (fn.__name__, s))
+                except Exception as ex:  # noqa
+                    viols.append({"what": "%s(%r): %s (a missing or empty command-line value must give a list: Differ(uniqueattrs=None) "
+                                          "means the xml:id default, not 'no unique attributes')" % (fn.__name__, s, ex),
+                                  "replay": {"kind": "unit", "fn": fn.__name__, "arg": s}})
 
         # -- documents on disk ----------------------------------------------------------
-        npairs = 14 if quick else 120
-        files = []
+        npairs = 15 if quick else 120
+        files, ignored_pairs = [], []
         for i in range(npairs):
-            k = i % 4
-            if k == 0:
+            k = i % 5
+            if k == 4:
+                # differing only in the value / presence of attribute k (for --ignored-attributes k)
+                L = gen.gen_tree(rng, rng.randint(2, 7), ns=False)
+                R = etree.fromstring(etree.tostring(L))
+                for e in rng.sample([e for e in R.iter() if isinstance(e.tag, str)], 1):
+                    if 'k' in e.attrib and rng.random() < .5:
+                        del e.attrib['k']
+                    else:
+                        e.set('k', e.get('k', '') + 'x')
+                ignored_pairs.append(i)
+            elif k == 0:
                 L = gen.gen_tree(rng, rng.randint(1, 7)); R = etree.fromstring(etree.tostring(L))      # identical
             elif k == 1:
                 L = gen.gen_tree(rng, rng.randint(2, 7)); R = gen.mutate_tree(rng, L, tags=('a', 'b', 'c'), attrs=('i', 'j', 'k'))
@@ -603,6 +659,11 @@ def main(run):
                     argvs.append(gen_argv(rng, f1, f2, {"f": fm, "w": w, "check": True}))
             for _ in range(10 if quick else 16):
                 argvs.append(gen_argv(rng, f1, f2))
+        for i in ignored_pairs:
+            f1, f2 = files[i]
+            for fm in ("diff", "xml", "old"):
+                argvs.append(gen_argv(rng, f1, f2, {"f": fm, "check": True, "ia": rng.choice(["k", "k,i", "j,k"]), "ua": "absent"}))
+                argvs.append(gen_argv(rng, f1, f2, {"f": fm, "check": True, "ia": "absent"}))
         f1, f2 = files[1]
         # one option at a time, exhaustively over its values
         for v in F_VALUES:
@@ -704,6 +765,14 @@ def main(run):
                     if w:
                         viols.append({"what": w, "replay": {"kind": "entrypoints-api", "left": open(f1).read(), "right": open(f2).read(),
                                                             "opts": opts, "spec": spec}})
+
+        # -- encodings ----------------------------------------------------------------------
+        for (f1, f2) in files[:8 if quick else 60]:
+            l, r = open(f1, encoding="utf8").read(), open(f2, encoding="utf8").read()
+            w = oracle_encodings(l, r)
+            counts["encodings"] = counts.get("encodings", 0) + 1
+            if w:
+                viols.append({"what": w, "replay": {"kind": "encodings", "left": l, "right": r}})
 
         # -- patch ------------------------------------------------------------------------
         for (f1, f2) in files[:8 if quick else 60]:
@@ -816,6 +885,15 @@ def replay(run, path):
                 w = oracle_entrypoints(c["args"][0], c["args"][1], c["kwargs"]["diff_options"], c["kwargs"]["formatter"])
             else:
                 w = oracle_command(argv, res)
+            print(w or "property holds on this input")
+            return 1 if w else 0
+        if k == "unit":
+            from xmldiff import main as M
+            r = getattr(M, d["fn"])(d["arg"])
+            print("%s(%r) = %r" % (d["fn"], d["arg"], r))
+            return 0 if isinstance(r, list) else 1
+        if k == "encodings":
+            w = oracle_encodings(d["left"], d["right"])
             print(w or "property holds on this input")
             return 1 if w else 0
         if k == "entrypoints-api":
